@@ -923,7 +923,12 @@ func (ctx Ctx) compositeLiteral(e *ast.CompositeLit) coq.Expr {
 	}
 	info, ok := ctx.getStructInfo(ctx.typeOf(e))
 	if ok {
-		return ctx.structLiteral(info, e)
+		sl := ctx.structLiteral(info, e)
+		if info.throughPointer {
+			// {...} standing for &T{...} as an element of a []*T literal
+			sl.Allocation = true
+		}
+		return sl
 	}
 	ctx.unsupported(e, "composite literal of type %v", ctx.typeOf(e))
 	return nil
